@@ -8,16 +8,18 @@ for f in sorted(glob.glob("/verif/seeded/*/meta.json")):
     sid = os.path.basename(os.path.dirname(f))
     conf = m.get("confirmed") or {}
     ok = all(conf.get(k) for k in ("applies", "demo_clean_passes", "demo_fails_with_change", "suite_passes_with_change"))
-    rows.append((sid, m.get("breaks_property"), "yes" if ok else "NO", ", ".join(m.get("caught_by") or []) or "—",
+    rows.append((sid, m.get("breaks_property"), (m.get("base_commit") or "") + (" (+patch_head.diff)" if os.path.exists(os.path.join(os.path.dirname(f), "patch_head.diff")) else ""), "yes" if ok else "NO", ", ".join(m.get("caught_by") or []) or "—",
                  ", ".join(m.get("tool_errors") or []) or "—", (m.get("what") or "").replace("|", "/")[:150],
                  (m.get("needs") or "").replace("|", "/")[:170]))
-caught = sum(1 for r in rows if r[3] != "—")
+caught = sum(1 for r in rows if r[4] != "—")
 out = ["# Seeded changes", "",
        "Each change keeps the crate compiling and the repository's suite green and breaks the named property;",
        "`confirmed` = applies, demo passes on the clean tree, demo fails with the change, suite passes with the change",
        "(checked by `tools/seedtest.py` in a scratch worktree). `caught by` = quick checks that exit 1 on the changed tree.", "",
        f"{caught} of {len(rows)} changes are caught by at least one check.", "",
-       "| id | breaks | confirmed | caught by | tool errors | what was changed | needs |", "|---|---|---|---|---|---|---|"]
+       "`base` = the /repo commit `patch.diff` is relative to; where a later `fix:` commit touched the same lines, `patch_head.diff` is",
+       "the same change rebased onto the current HEAD (`git -C /repo apply seeded/<id>/patch_head.diff`).", "",
+       "| id | breaks | base | confirmed | caught by | tool errors | what was changed | needs |", "|---|---|---|---|---|---|---|---|"]
 for r in rows:
     out.append("| " + " | ".join(str(x) for x in r) + " |")
 open("/verif/seeded/SUMMARY.md", "w").write("\n".join(out) + "\n")
